@@ -8,7 +8,7 @@ from checks.C01 import SKELETONS, LONG, STUBS
 
 BOUNDS = {
     "quick": "idempotence + the four mode round trips on the 21 C01 skeletons with every hole string of length 0..1 (2 in path/query/fragment) x quoted, strip_fragment alternating; "
-             "spelling transformations (case of scheme/host, explicit default port, lower-case hex in escapes, escaping an unreserved character, raw space vs %20, "
+             "spelling transformations (case of scheme/host, explicit default port, lower-case hex in escapes (mid-segment, whole last segment, after a '.' in the last segment), escaping an unreserved character, raw space vs %20, "
              "surrounding whitespace, an embedded control character, './', 'x/../', doubled '/', empty '?' / '#') applied around a hole of length 0..2",
     "thorough": "holes of length 0..3 (2 in netloc positions) x quoted x strip_fragment; transformations around holes of length 0..3",
 }
@@ -78,6 +78,15 @@ def spelling(st, kind, n, quoted, sf):
             raise_cut(st)
         u = cat("http://x.fr/a%", h, "/b?k=%", h, "#%", h)
         v = cat("http://x.fr/a%", mk("str", low), "/b?k=%", mk("str", low), "#%", mk("str", low))
+    elif kind in ("hex-case-tail", "hex-case-dot-tail"):
+        # the escape is the whole last path segment (or follows a '.' there): an escaped dot segment, in either case
+        st.assume(z_and([C.CharSet([(0x30, 0x39), (0x41, 0x46)]).cond(c) for c in he]), "hex digits")
+        low = [z3.If(z3.UGE(c, 0x41), c + 32, c) if not isinstance(c, int) else c for c in he]
+        if n != 2:
+            raise_cut(st)
+        pre = "http://x.fr/d/e/%" if kind == "hex-case-tail" else "http://x.fr/d/e/.%"
+        u = cat(pre, h)
+        v = cat(pre, mk("str", low))
     elif kind == "escape-unreserved":
         # one unreserved character written raw or escaped, in path / query / fragment / userinfo
         if n != 1:
@@ -127,7 +136,7 @@ def raise_cut(st):
     st.assume(False, "shape not applicable")
 
 
-KINDS = ["host-case", "host-case-sym", "default-port", "default-port-https", "hex-case", "escape-unreserved", "space",
+KINDS = ["host-case", "host-case-sym", "default-port", "default-port-https", "hex-case", "hex-case-tail", "hex-case-dot-tail", "escape-unreserved", "space",
          "outer-whitespace", "control", "dot-segment", "dotdot-segment", "double-slash", "empty-query", "empty-fragment"]
 
 
@@ -147,7 +156,7 @@ def items(tier):
                         it["defer_depth"] = 8 if n == 2 else 12
                     out.append(it)
     for kind in KINDS:
-        ns = {"hex-case": [2], "escape-unreserved": [1]}.get(kind, list(range(0, (2 if quick else 3) + 1)))
+        ns = {"hex-case": [2], "hex-case-tail": [2], "hex-case-dot-tail": [2], "escape-unreserved": [1]}.get(kind, list(range(0, (2 if quick else 3) + 1)))
         for n in ns:
             for quoted in (False, True):
                 sf = (n % 2 == 1)
